@@ -17,11 +17,11 @@ pub fn ev(a: &str, ex: i64, inst: i64, cid: &str, kind: &str, side: &str, qty: i
 }
 
 pub fn open_r(rng: &mut StdRng, inst: i64, cid: &str, unknown_ex: bool) -> Value {
-    let ex = if unknown_ex { 2 } else { world2::EX_OF[inst as usize] as i64 };
+    let ex = if unknown_ex { world2::UNKNOWN_EX } else { world2::EX_OF[inst as usize] as i64 };
     json!({"k": "open", "ex": ex, "inst": inst, "cid": cid, "side": if rng.random_bool(0.5) { "buy" } else { "sell" }, "qty": rng.random_range(1..=3), "hasId": false})
 }
 pub fn cancel_r(rng: &mut StdRng, inst: i64, cid: &str, unknown_ex: bool) -> Value {
-    let ex = if unknown_ex { 2 } else { world2::EX_OF[inst as usize] as i64 };
+    let ex = if unknown_ex { world2::UNKNOWN_EX } else { world2::EX_OF[inst as usize] as i64 };
     json!({"k": "cancel", "ex": ex, "inst": inst, "cid": cid, "side": "-", "qty": 0, "hasId": rng.random_bool(0.5)})
 }
 
@@ -64,11 +64,16 @@ pub fn random_filter(rng: &mut StdRng) -> Value {
             let at = rng.random_range(0..=s.len());
             s.insert(at, d);
         }
+        // ... and in any order
+        if rng.random_range(0..4) == 0 {
+            s.reverse();
+        }
         s
     };
     match rng.random_range(0..4) {
         0 => no_filter(),
-        1 => json!({"k": "Exchanges", "set": subset(rng, 2)}),
+        // three exchanges: the subsets include the non-adjacent {0, 2} (also as <<2, 0>>, <<0, 2, 0>> ...)
+        1 => json!({"k": "Exchanges", "set": subset(rng, world2::N_EX as i64)}),
         2 => json!({"k": "Instruments", "set": subset(rng, world2::N_INST as i64)}),
         _ => json!({"k": "Underlyings", "set": subset(rng, world2::N_INST as i64)}),
     }
@@ -81,7 +86,7 @@ pub fn random_env(rng: &mut StdRng) -> Value {
         2 | 3 => "unhealthy",
         _ => "healthy",
     };
-    let link = vec![mode(rng), mode(rng)];
+    let link: Vec<&str> = (0..world2::N_EX).map(|_| mode(rng)).collect();
     let (mut algo_c, mut algo_o) = (vec![], vec![]);
     if rng.random_bool(0.4) {
         if rng.random_bool(0.5) {
@@ -102,12 +107,12 @@ pub fn random_event(rng: &mut StdRng) -> Value {
     match rng.random_range(0..100) {
         0..=8 => ev("Market", ex, inst, "", "", "-", 0, false, "-", vec![], no_filter()),
         9..=11 => ev("MarketNoPrice", ex, inst, "", "", "-", 0, false, "-", vec![], no_filter()),
-        12..=15 => ev("MarketReconnecting", rng.random_range(0..2), 0, "", "", "-", 0, false, "-", vec![], no_filter()),
-        16..=19 => ev("AccountReconnecting", rng.random_range(0..2), 0, "", "", "-", 0, false, "-", vec![], no_filter()),
+        12..=15 => ev("MarketReconnecting", rng.random_range(0..world2::N_EX as i64), 0, "", "", "-", 0, false, "-", vec![], no_filter()),
+        16..=19 => ev("AccountReconnecting", rng.random_range(0..world2::N_EX as i64), 0, "", "", "-", 0, false, "-", vec![], no_filter()),
         20..=31 => ev("OrderSnap", ex, inst, if rng.random_range(0..8) == 0 { CLOSE_CID } else { cid }, if rng.random_bool(0.7) { "Open" } else { "Inactive" }, "-", 0, false, "-", vec![], no_filter()),
         32..=37 => ev("CancelResp", ex, inst, cid, "", "-", 0, rng.random_bool(0.5), "-", vec![], no_filter()),
         38..=49 => ev("Trade", ex, inst, "", "", if rng.random_bool(0.5) { "buy" } else { "sell" }, rng.random_range(1..=2), false, "-", vec![], no_filter()),
-        50..=52 => ev("Balance", rng.random_range(0..2), 0, "", "", "-", rng.random_range(0..9), false, "-", vec![], no_filter()),
+        50..=52 => ev("Balance", rng.random_range(0..world2::N_EX as i64), 0, "", "", "-", rng.random_range(0..9), false, "-", vec![], no_filter()),
         53..=60 => ev("TradingState", 0, 0, "", "", "-", 0, false, if rng.random_bool(0.5) { "Enabled" } else { "Disabled" }, vec![], no_filter()),
         61..=70 => { let b = batch(rng, true, 3); ev("SendOpens", 0, 0, "", "", "-", 0, false, "-", b, no_filter()) }
         71..=78 => { let b = batch(rng, false, 3); ev("SendCancels", 0, 0, "", "", "-", 0, false, "-", b, no_filter()) }
